@@ -461,6 +461,14 @@ class Worker(threading.Thread):
                     raise
                 self.res.append(["empty", kj])
                 out = "empty"
+            except ConnectionError as e:        # not raised by the code as it is: a recv that gives up
+                left = [decode(x) for x in hub_in_use()._messages.get(key, ())]
+                self.res.append(["recvRaised", kj, "ConnectionError"])
+                out = "raised"
+                if left:
+                    s.unexpected.append({"thread": self.tid, "op": "recv(block=%s) on %s" % (block, kj),
+                                         "error": "ConnectionError(%s) while %s is still queued for this socket"
+                                                  % (e, left)})
             except ValueError as e:     # json.JSONDecodeError: recv_structured popped a string that is no JSON message
                 doc = getattr(e, "doc", None)           # the popped string (consumed, not returned)
                 s.delivery.setdefault(tuple(kj), []).append(("pop", decode(doc) if doc is not None else head))
@@ -1037,6 +1045,11 @@ def coarse_scenarios():
         # one callback socket, one plain socket on the receiving endpoint
         [[("c", 2, 0, 0), B, ("s", 2, 0, 1)], [("c", 2, 0, 0), B, ("s", 2, 0, 2), ("s", 2, 0, 3)],
          [("c", 0, 0, 1), ("c", 1, 0, 0), B, ("r", 1, 0, 0), ("r", 1, 0, 0)]],
+        # the peer sends and DISCONNECTS while the receiver is inside blocking receives: every message sent before
+        # the disconnect must be received by a receiver that keeps receiving (receiver first / sender first)
+        [[("c", 1, 0, 0), B, ("r", 1, 0, 1), ("r", 1, 0, 1)], [("c", 0, 0, 0), B, ("s", 0, 0, 1), ("s", 0, 0, 2), ("d", 0, 0)]],
+        [[("c", 1, 0, 0), B, ("s", 1, 0, 1), ("s", 1, 0, 2), ("s", 1, 0, 3), ("d", 1, 0)],
+         [("c", 0, 0, 0), B, ("r", 0, 0, 1), ("r", 0, 0, 1), ("r", 0, 0, 1)]],
         # two socket ids between the same pair, callback receivers, senders in both directions
         [[("c", 1, 0, 1), ("c", 1, 1, 1), B, ("s", 1, 0, 1), ("s", 1, 1, 2)],
          [("c", 0, 0, 1), ("c", 0, 1, 1), B, ("s", 0, 1, 3), ("s", 0, 0, 4)]],
@@ -1065,15 +1078,33 @@ def coarse_run(progs, preempt, step_cap=600):
             if guard > 4000 or not progressed:
                 raise Stuck("coarse setup phase does not reach the barrier")
         cur, i = None, 0
+        seen, last_sig = {}, None      # (thread -> lines visited since the shared state last changed): spin detection
         while i < step_cap:
             en = [t for t in range(n) if sc.enabled(t)]
             if not en:
                 break
+            sig = _sig(sc)
+            if sig != last_sig:
+                seen, last_sig = {}, sig
+
+            def spinning(t):     # the same line again and again inside ONE operation while nothing changes (a generator
+                w = sc.workers[t]  # expression revisits its line a few times, a polling loop for ever)
+                return seen.get((t, len(w.res)), {}).get(w.line, 0) >= 6
+
+            if all(spinning(t) for t in en) and i not in preempt:
+                break                   # every thread that can run only polls an unchanged state (blocking recv / wait)
             if i in preempt and preempt[i] in en:
                 cur = preempt[i]
-            elif cur is None or cur not in en:
-                cur = en[0]
+            elif cur is None or cur not in en or spinning(cur):
+                # a thread that completed a polling round without any change yields to the next one
+                start = 0 if cur is None else cur + 1
+                order = [(start + d) % n for d in range(n)]
+                cands = [t for t in order if t in en]
+                cur = ([t for t in cands if not spinning(t)] or cands)[0]
             trace.append((cur, [t for t in en if t != cur]))
+            ek = (cur, len(sc.workers[cur].res))
+            seen.setdefault(ek, {})
+            seen[ek][sc.workers[cur].line] = seen[ek].get(sc.workers[cur].line, 0) + 1
             sc.step(cur)
             schedule.append(cur)
             i += 1
